@@ -269,6 +269,43 @@ func runC10(r *core.Run) {
 						fail("constructor-layout", out, in)
 					}
 				}
+				// values assembled field by field with a key object of an undeclared length: whatever the
+				// validator accepts must hold keys of exactly the declared lengths (and serialise to the layout)
+				if fill == 0 && e3 == nil && e4 == nil {
+					for _, wl := range []int{31, 32, 33, 64, 96, 128, 255, 256, 257, 384} {
+						for _, which := range []string{"crypto", "signing"} {
+							v := &keys_and_cert.KeysAndCert{KeyCertificate: kc, ReceivingPublic: lpk, Padding: k.Padding, SigningPublic: lsk}
+							declared := cl
+							if which == "crypto" {
+								if wl == cl {
+									continue
+								}
+								wk, _ := adapt.CryptoPub(4, make([]byte, wl)) // slice-backed key object of arbitrary length
+								if wl == 256 {
+									wk, _ = adapt.CryptoPub(0, make([]byte, 256)) // the ElGamal array type
+								}
+								v.ReceivingPublic = wk
+							} else {
+								declared = si.PubLen
+								if wl == si.PubLen {
+									continue
+								}
+								wk, _ := adapt.SigningPub(7, make([]byte, wl))
+								v.SigningPublic = wk
+							}
+							r.Evaluations.Add(1)
+							var verr error
+							var out []byte
+							var berr error
+							if pan, _ := core.Guard(func() { verr = v.Validate(); out, berr = v.Bytes() }); pan {
+								continue // C04/C20's business
+							}
+							if verr == nil || berr == nil {
+								r.Violate("C10|layout|validator-accepts-key-of-undeclared-length|"+which, fmt.Sprintf("%s: a KeysAndCert holding a %d-byte %s key under a certificate declaring %d bytes: Validate err=%v, Bytes err=%v (%d bytes)", id, wl, which, declared, verr, berr, len(out)), core.Case{Kind: "sweep", Args: map[string]string{"pair": id, "which": which, "len": fmt.Sprint(wl)}})
+							}
+						}
+					}
+				}
 				r.Distinct([]byte("layout"), in)
 			}
 		}
